@@ -61,6 +61,13 @@ CHECKS = {
         "design_ref": "DESIGN.md section 4, C16",
         "level_note": "Trusted: the Lark 1.1.2 runtime embedded in _parser.py (no reference copy offline), Lark 1.3.1 as grammar compiler. Serialisation fields only one version has are skipped and named in the evidence.",
     },
+    "C17": {
+        "engine": "E1+E2/E3+E6",
+        "technique": "callback coverage against the shipped grammar tables; context-pruned reachability from the transformer callbacks; explicit-raise closure against KeyError / LarkError subclasses (hierarchy read from _parser.py's AST); interprocedural catch-and-convert rule for int() of unbounded tokens; who-may-write on the registries; memo-key lint",
+        "level_text": "Every grammar rule has a callback; on the functions reachable from the callbacks the only exception classes that can escape through raise statements are KeyError and LarkError subclasses; the three int() conversions of unbounded digit tokens are caught and re-raised as ParseError (one fix: commit); no reachable function writes a name/symbol registry; magnitudes come from the builtin int/float; no memo on the path is keyed by a number or reads the registries. Lexing/parsing failures inside the embedded Lark runtime are the trusted base.",
+        "design_ref": "DESIGN.md section 4, C17",
+        "level_note": "Trusted: the embedded Lark runtime raises only LarkError subclasses; mypy call resolution; Any-typed arguments conform to annotations. Not decided: implicit exceptions of builtins other than int() (float('1e999') is inf).",
+    },
     "C18": {
         "engine": "E1+E4+E5",
         "technique": "abstract interpretation of LogarithmicUnit.level and Level.quantify to normal forms with ln/exp heads, compared with the logarithmic definition; units-of-measure typing of the log argument; structural rules; declared bases from E5",
